@@ -315,7 +315,7 @@ REAL_VS_STUB = {
         "numba-decorated nnet kernels executed as their Python source (NUMBA_DISABLE_JIT=1)",
     ],
     "stub": [
-        "id() inside mygrad._utils.lock_management (simulated allocator, S3 lanes only)",
+        "id() inside mygrad._utils.lock_management (always the simulated allocator, so that no run depends on real addresses; ids of dead objects are re-issued only in the S3 lanes)",
         "the trigger of cyclic GC (gc disabled; fired by events and by PEP 669 line-event pre-emption)",
         "the exception raised by injected kernel faults (wrapper around Operation.__call__)",
         "file objects handed to save/load (SimFile)",
